@@ -42,15 +42,18 @@ type Oracle struct {
 	Lock     bool // IsLocked agrees with the model
 	Events   bool // observer callbacks multiset per operation
 	InCb     bool // C09: inspect the world from inside observer callbacks
+	Res      bool // resources agree with the model
+	ProbeCb  bool // C07: attempt structural operations from inside removal and batch callbacks
 	Pool     bool // C02: handle uniqueness, Alive of every handle ever issued, counts
 	ZeroInit bool // C11: uninitialised components read as zero (part of World compare anyway)
 }
 
 // Violation describes a failed oracle.
 type Violation struct {
-	Kind string // oracle component, e.g. "value", "alive", "query", "panic", "event"
-	Msg  string
-	Step int
+	Kind   string // oracle component, e.g. "value", "alive", "query", "panic", "event"
+	Msg    string
+	Step   int
+	OpKind string // kind of the last executed operation
 }
 
 func (v *Violation) Error() string { return fmt.Sprintf("[%s] step %d: %s", v.Kind, v.Step, v.Msg) }
@@ -168,7 +171,11 @@ func (h harnessError) Error() string { return "harness error: " + h.msg }
 func harness(format string, a ...any) { panic(harnessError{fmt.Sprintf(format, a...)}) }
 
 func (x *World) viol(kind, format string, a ...any) *Violation {
-	return &Violation{Kind: kind, Msg: fmt.Sprintf(format, a...), Step: x.Step}
+	v := &Violation{Kind: kind, Msg: fmt.Sprintf(format, a...), Step: x.Step}
+	if x.curOp != nil {
+		v.OpKind = x.curOp.K.String()
+	}
+	return v
 }
 
 func (x *World) handle(i int) ecs.Entity {
@@ -337,6 +344,9 @@ func (x *World) Exec(op model.Op) *Violation {
 	}
 	if res.Panics {
 		if !panicked {
+			if op.K == model.OpInvalid {
+				return x.viol("accepted", "invalid call %v did not panic", op)
+			}
 			return x.viol("lock", "%v on a locked world did not panic", op)
 		}
 		return nil
@@ -616,6 +626,14 @@ func (x *World) run(op *model.Op, res *model.Result) *Violation {
 		}
 	case model.OpCount:
 		return x.runCount(op)
+	case model.OpTouch:
+		q := x.filter(op.F).Query(x.relArgs(op.QT))
+		if !w.IsLocked() {
+			q.Close()
+			return x.viol("lock", "world not locked while a query is open")
+		}
+		q.Close()
+		q.Close()
 	case model.OpShrink:
 		w.Shrink()
 	case model.OpShrinkLimit:
@@ -656,7 +674,7 @@ func (x *World) run(op *model.Op, res *model.Result) *Violation {
 		ev.Emit(x.handle(op.E))
 	case model.OpGC:
 		runtime.GC()
-	case model.OpResAdd, model.OpResRemove, model.OpRegisterComp, model.OpDumpLoad, model.OpInvalid:
+	case model.OpResAdd, model.OpResRemove, model.OpRegisterComp, model.OpDumpLoad, model.OpInvalid, model.OpLoadEntities:
 		return x.runMisc(op, res)
 	default:
 		harness("unhandled op kind %v", op.K)
@@ -740,6 +758,7 @@ func (x *World) runBatch(op *model.Op, res *model.Result) *Violation {
 		if !w.IsLocked() {
 			lockedOK = false
 		}
+		x.probeLocked(e)
 	}
 	tuple := op.Tuple()
 	rels := x.relArgs(op.T)
@@ -938,4 +957,32 @@ func (x *World) runCount(op *model.Op) *Violation {
 		}
 	}
 	return nil
+}
+
+// probeLocked attempts structural operations from inside a callback that runs on a locked
+// world; each must panic (C07). The state comparison after the operation shows "without effect".
+func (x *World) probeLocked(e ecs.Entity) {
+	if !x.Or.ProbeCb || x.cbViol != nil {
+		return
+	}
+	w := x.W
+	attempts := []struct {
+		name string
+		f    func()
+	}{
+		{"World.NewEntity", func() { w.NewEntity() }},
+		{"World.RemoveEntity", func() { w.RemoveEntity(e) }},
+		{"World.CopyEntity", func() { w.CopyEntity(e) }},
+		{"Unsafe.Add", func() { w.Unsafe().Add(e, x.Env.ID(ct.T9)) }},
+		{"Unsafe.NewEntity", func() { w.Unsafe().NewEntity(x.Env.ID(ct.T9)) }},
+		{"World.NewEntities", func() { w.NewEntities(2, nil) }},
+		{"World.Reset", func() { w.Reset() }},
+		{"World.Shrink", func() { w.Shrink() }},
+	}
+	for _, a := range attempts {
+		if panicked, _ := try(a.f); !panicked {
+			x.cbViol = x.viol("lock", "%v: %s called from inside a callback on a locked world did not panic", *x.curOp, a.name)
+			return
+		}
+	}
 }
